@@ -573,6 +573,17 @@ impl FunctionCompiler<'_> {
 
                     assert!(!dest_ty.is_aggregate());
 
+                    // the operation is done in the common type of both sides, which can be
+                    // wider than the destination (`my_u8 += my_u16`). the result has to be
+                    // brought back to the type of the destination before it is stored, or
+                    // else the store would run over whatever comes after the destination
+                    let value_ty = self.tys[self.loc][assign_body.value];
+                    let max_ty: Intern<Ty> = dest_ty
+                        .max(&value_ty)
+                        .expect("hir_ty would've caught this")
+                        .into();
+                    let res = self.cast(res, max_ty, *dest_ty);
+
                     dest.write_all(res, *dest_ty, self.module, &mut self.builder);
                 } else {
                     self.compile_and_cast_into_memory(assign_body.value, *dest_ty, dest);
